@@ -141,4 +141,26 @@ def sesStep (st : SesState) (noSettle : Bool) (toks : List String) : SesState ×
       else if toks.head? = some "adv" then { w with evs := stableSortBy advKey w.evs } else w
     ({ st with w := step w .observe }, reportLine w)
 
+/-- the summary a window scenario ends with: independent of where inside its
+    operation a parked goroutine stood -/
+def winSummary (w : World) : String :=
+  let parts := (List.range w.socks.size).map fun i =>
+    let n := (w.slog.filter fun e => e.1 == i && e.2.isClose).length
+    s!"s{i}:{(w.sock i).rs.name}{if n > 1 then s!":x{n}" else ""}"
+  let reg := w.registry.mergeSort (· ≤ ·)
+  let pend := (List.range w.reqs.size).filter fun i => !(w.reqs.getD i default).done
+  let ended := (List.range w.conns.size).filter fun i => (w.conns.getD i default).ended.isSome
+  "W " ++ " ".intercalate (parts ++ [s!"G:{showInts reg}:{reg.length}", s!"P:{showInts pend}", s!"X:{showInts ended}"])
+
+/-- window scenarios: the model runs the operations one after the other
+    (`arm` / `release` do nothing); only the end is compared -/
+def seswStep (st : SesState) (toks : List String) : SesState × String :=
+  match toks with
+  | "cfg" :: rest => ({ w := init (parseOpts rest) }, "ok")
+  | ["end"] => (st, winSummary st.w)
+  | _ =>
+    match parseOp toks with
+    | some op => ({ st with w := step (step (step st.w op) .settle) .observe }, "-")
+    | none => (st, "-")
+
 end Driver
